@@ -291,6 +291,17 @@ func bundleGen(args []string) error {
 					b.Primary = b.Exs[0].URL
 				}
 			}
+			if r.Intn(4) == 0 { // absolute URLs without an authority component, with a port, with an upper-case host
+				b.Primary = ints([]byte([]string{"urn:uuid:f81d4fae-7dec-11d0-a765-00a0c91e6bf6", "uuid-in-package:f81d4fae-7dec-11d0-a765-00a0c91e6bf6", "file:///index.html",
+					"https://a.test:8443/p?q=1", "https://A.TEST/primary", "http://a.test/"}[r.Intn(6)]))
+			}
+		}
+		// a large bundle now and then (paths that depend on the NUMBER of exchanges)
+		if i%40 == 7 {
+			for j := 0; j < 300; j++ {
+				us := fmt.Sprintf("https://many.test/r/%04d", j)
+				b.Exs = append(b.Exs, bex{URL: ints([]byte(us)), Status: 200, Hdrs: []hent{{N: ints([]byte("content-type")), Vs: [][]int{ints([]byte("text/plain"))}}}, Body: ints([]byte(us))})
+			}
 		}
 		if r.Intn(4) == 0 {
 			b.HasManifest, b.Manifest = true, ints([]byte("https://a.test/manifest.json"))
